@@ -20,7 +20,7 @@ ASSUMPTIONS = ["labels are unique int/float/str (no None/NaN/datetime labels); b
 
 
 def shards(tier, seed, scale=1.0):
-    return common.rand_shards(ID, tier, seed, scale, 6400, 320000)
+    return common.rand_shards(ID, tier, seed, scale, 16000, 320000)
 
 
 def cases(desc):
@@ -35,7 +35,10 @@ IDX_KINDS = ['scalar', 'list', 'arr', 'mask', 'full', 'empty', 'rep', 'absent', 
 def gen_index(rng, lab, kind, ik, tol):
     n = len(lab)
     if ik == 'scalar':
-        return lab[rng.randrange(n)]
+        v = lab[rng.randrange(n)]
+        if kind != 's' and rng.random() < 0.3:
+            v = gen.np_labels([v], kind)[0]        # a NumPy scalar, as returned by a.x[0] or a.argmin()
+        return v
     if ik == 'one':
         return [lab[rng.randrange(n)]]
     if ik in ('list', 'arr', 'rep'):
@@ -236,6 +239,10 @@ def check(case, ctx):
                 common.expect(ctx, ID, key, full_label, res, exc, exp=exp)
         # ---- positional spellings (only when the label lookup is defined)
         if pos is not None and nd:
+            def neg(p, n):
+                # the same position counted from the end (NumPy semantics), deterministically from the case
+                return p - n if (case["ellpos"] + p) % 3 == 0 else p
+            pos = [neg(p, len(l)) if not isinstance(p, list) else [neg(q, len(l)) for q in p] for p, l in zip(pos, m.labels)]
             ppos = [p if not isinstance(p, list) else (np.array(p, dtype=int) if (len(p) == 0 or case["chain_by_pos"]) else list(p)) for p in pos]
             # full dims back to full slices so that Ellipsis/short forms are exercised too
             pidx = [slice(None) if is_full(ix) else p for ix, p in zip(idx, ppos)]
